@@ -166,6 +166,11 @@ def gen_case(rng):
 
 
 def run_case(rng, tier, case):
+    if rng.random() < 0.08:
+        # maximum holding time on steps of unequal length (daily steps over a DST switch): exhaustive pattern admission (see C05) - a holding
+        # time is the sum of the real step lengths
+        from .c05 import maxdur_admission
+        return maxdur_admission(rng, tier, case, clause='steps.max_hold_follows_elapsed_time', force_unequal=True)
     spec = gen_case(rng)
     u = spec['grid']['unit']
     u2 = gen.pick(rng, [x for x in ('h', 'd', 'min') if x != u])
